@@ -59,6 +59,37 @@ CHECKS = {
         "trusts vf/cborlite.py, vf/refenc.py; F4 predicates over-approximate only towards exclusion (hit rate in evidence)",
         "DESIGN.md section 5 / C03",
     ),
+    "C04": (
+        "exploration",
+        "Hypothesis-generated envelopes x algorithms x key ids x key encodings signed through the CLI-level entry point, checked with an independent CBOR reader and independent signature verification; signature storm for the leading-zero event",
+        "Every signed output is compared member by member with its input (own CBOR reader), the new block's structure, protected "
+        "header (algorithm, bstr-wrapped key id) and signature width are read, and the signature is verified with cryptography / "
+        "pycryptodome over a Sig_structure built by the verifier. A storm of 3000 signatures per ECDSA curve through the file KMS "
+        "reaches the 2^-7 leading-zero-byte event dozens of times per run.",
+        "trusts the verification primitives of cryptography/pycryptodome and vf/cborlite.py; inputs unsigned; DER-key failures counted not judged",
+        "DESIGN.md section 5 / C04",
+    ),
+    "C05": (
+        "exploration",
+        "Hypothesis-generated file hierarchies (four digest forms, four size forms, payloads by path/hex, dependencies inline/by path to depth 3) checked against hashlib/os.stat of the files the harness wrote",
+        "The harness writes the files, builds descriptions referring to them through every reference form with relative and absolute, "
+        "hex-looking, spaced and non-ASCII names, creates the envelope and reads parameter 3/14 and the integrated members back with "
+        "its own CBOR reader; dependency digests are recomputed over the embedded child's wrapped manifest under the parent's "
+        "algorithm and the child must equal its stand-alone creation. Known finding F9 (bare hex-digit file name) routed and probed.",
+        "trusts hashlib and vf/cborlite.py",
+        "DESIGN.md section 5 / C05",
+    ),
+    "C09": (
+        "exploration",
+        "exhaustive policy table + Hypothesis-generated dependency trees with configurations generated from the tree, parallel tree walk with independent signature verification",
+        "Part 1 enumerates {unsigned, signed} x {error, skip, remove-old} x 5 algorithms x 4 key families completely (120 cases); part 2 "
+        "generates trees to depth 3 with pre-signed nodes and plain payloads and per-node configurations (sign with own key / key id / "
+        "algorithm or inherited, omit-signing with and without key fields, unnamed, per-node already-signed action, negative entries) "
+        "and checks every node of the output tree against the plan with the verifier's CBOR reader and signature verification under "
+        "the key the configuration names; refusals must leave no output file.",
+        "trusts cryptography/pycryptodome verification, vf/cborlite.py; already-signed inputs carry exactly one signature",
+        "DESIGN.md section 5 / C09",
+    ),
 }
 
 NOT_YET = "check under construction in this session; not claimed until its quick command is registered here"
